@@ -95,6 +95,7 @@ def run(ctx):
     r4_index_invariant(ctx)
     r5_order(ctx, where, arms)
     r6_cache_invalidation(ctx)
+    r7_per_keyword_state(ctx)
 
 
 def _arms(fn):
@@ -243,7 +244,9 @@ def r4_index_invariant(ctx):
 def r5_order(ctx, where, arms):
     ctx.rule("C17.R5", "a single-keyword selection is in table order: ranges are visited in ascending (lo,hi) order and each arm returns ascending ranges")
     loops = [x for x in walk_shallow(where) if isinstance(x, ast.For) and unparse(x.iter) == "self._lohis[kw]"]
-    ok = len(loops) == 1 and any(isinstance(y, ast.For) and unparse(y.iter) == "self._compare(lo, hi, self._data[kw], arg, comparison, 'bisect')" for y in walk_shallow(loops[0]))
+    cmps = {unparse(c.args[4]) for c in walk_shallow(where) if isinstance(c, ast.Call) and call_tail(c) == "_compare" and len(c.args) == 6 and isinstance(c.args[4], ast.Name)}
+    CMP = sorted(cmps)[0] if len(cmps) == 1 else "comparison"  # the operator in force for the current keyword (the parameter, or a per-keyword local)
+    ok = len(loops) == 1 and any(isinstance(y, ast.For) and unparse(y.iter) == f"self._compare(lo, hi, self._data[kw], arg, {CMP}, 'bisect')" for y in walk_shallow(loops[0]))
     ctx.ob("C17.R5", RES, "Table.where", loops[0] if loops else where, "index ranges are visited in their stored (ascending) order", ok, stmt="lohis order")
     arm = arms.get("in")
     b, _, _ = _bisect_scan(arm) if arm is not None else (None, None, [])
@@ -256,8 +259,43 @@ def r5_order(ctx, where, arms):
     ok = "new_hi = my_bisect_right(col, col[lo], lo, hi)" in src and "yield (lo, new_hi)" in src and "lo = new_hi" in src
     ctx.ob("C17.R5", RES, "Table._sub_lohis", sub, "sub-ranges partition [lo,hi) into maximal runs of equal values, ascending", ok, stmt="_sub_lohis")
     guard = [x for x in walk_shallow(where) if isinstance(x, ast.If) and "kw in self._indexes" in unparse(x.test)]
-    ok = len(guard) == 1 and unparse(guard[0].test) == "kw in self._indexes and comparison != 'match' and (not callable(arg))"
+    ok = len(guard) == 1 and unparse(guard[0].test) == f"kw in self._indexes and {CMP} != 'match' and (not callable(arg))"
     ctx.ob("C17.R5", RES, "Table.where", guard[0] if guard else where, "bisect is used only for index columns, never for match/callables", ok, stmt="bisect guard")
+
+
+def r7_per_keyword_state(ctx):
+    """Each keyword condition of where() is evaluated on its own: nothing decided for one keyword (e.g. the operator of a {op: value} argument)
+    may carry over to the next.  A variable that lives across iterations (a parameter or a name bound before the loop) and is re-bound only on
+    some paths of the loop body, then read in the body, carries the previous keyword's value into the next iteration."""
+    from ..cfg import CFG
+    from ..dataflow import stored_names
+    ctx.rule("C17.R7", "where(): no loop-carried leak between keyword conditions -- a name that is live into the kwargs loop is not conditionally re-bound and then "
+                       "read inside the loop body")
+    fn = ctx.fn(RES, "Table.where")
+    loops = [x for x in walk_shallow(fn) if isinstance(x, ast.For) and "kwargs" in unparse(x.iter)]
+    ctx.floor("C17.R7", "loops over the keyword conditions", len(loops), 1)
+    params = {a.arg for a in fn.args.args} | {a.arg for a in fn.args.kwonlyargs}
+    for lp in loops:
+        targets = {t.id for t in ast.walk(lp.target) if isinstance(t, ast.Name)}
+        before = set(params)
+        for st in fn.body:
+            if st is lp or any(a is lp for a in ast.walk(st)):
+                break
+            before |= {t.id for x in ast.walk(st) if isinstance(x, (ast.Assign, ast.AugAssign)) for t in ast.walk(x) if isinstance(t, ast.Name) and isinstance(t.ctx, ast.Store)}
+        # names stored on every path of one iteration (top-level statements of the body that bind unconditionally)
+        always, sometimes = set(), set()
+        for st in lp.body:
+            names = {t.id for t in ast.walk(st) if isinstance(t, ast.Name) and isinstance(t.ctx, ast.Store)}
+            if isinstance(st, (ast.Assign, ast.AnnAssign, ast.AugAssign)):
+                always |= names
+            else:
+                sometimes |= names
+        loaded = {t.id for st in lp.body for t in ast.walk(st) if isinstance(t, ast.Name) and isinstance(t.ctx, ast.Load)}
+        leaks = sorted(((sometimes - always) & before & loaded) - targets - {"selection"})
+        accum = sorted(n_ for n_ in leaks if all(isinstance(parent(t), ast.Attribute) for st in lp.body for t in ast.walk(st) if isinstance(t, ast.Name) and t.id == n_ and isinstance(t.ctx, ast.Load)))
+        leaks = [n_ for n_ in leaks if n_ not in accum]
+        ctx.ob("C17.R7", RES, "Table.where", lp, "no name carries a per-keyword decision from one keyword condition into the next", not leaks,
+               detail={"conditionally re-bound and read": leaks}, stmt="kwargs loop carries no state")
 
 
 def r6_cache_invalidation(ctx):
@@ -312,6 +350,9 @@ def r6_cache_invalidation(ctx):
 
 
 CONTROLS = [
+    ("operator of a dict argument leaks to later keywords", RES, M.chain(
+        M.replace_stmt("Table.where", M.text_has("kw_comparison = next(iter(arg.keys())) if isinstance(arg, dict) else comparison"), "if isinstance(arg, dict): comparison = next(iter(arg.keys()))"),
+        M.replace_expr("Table.where", "kw_comparison", "comparison", count=3)), "C17.R7"),
     ("row-list inserts keep the cached ranges", RES, M.chain(M.delete_stmt("Table.insert", M.text_has("if self._lohis: self._lohis = {}")),
                                                           M.insert_after("Table.insert", M.text_has("self._columns += tuple(sorted(new_cols))"), "if self._lohis: self._lohis = {}")), "C17.R6"),
     ("bisect fallback skips first row", RES, M.replace_expr("my_bisect_left", "bisect_left(c, a, l, h)", "bisect_left(c, a, l + 1, h)"), "C17.R2"),
@@ -319,7 +360,7 @@ CONTROLS = [
     ("scan > becomes >=", RES, M.replace_expr("Table._compare", "c > arg", "c >= arg"), "C17.R2"),
     ("unsorted union", RES, M.replace_expr("Table.where", "sorted(set(selection))", "selection"), "C17.R3"),
     ("drop operator from Literal", RES, lambda tree: _drop_literal(tree), "C17.R1"),
-    ("bisect for unindexed column", RES, M.replace_expr("Table.where", "kw in self._indexes and comparison != 'match' and (not callable(arg))", "comparison != 'match' and (not callable(arg))"), "C17.R5"),
+    ("bisect for unindexed column", RES, M.replace_expr("Table.where", "kw in self._indexes and kw_comparison != 'match' and (not callable(arg))", "kw_comparison != 'match' and (not callable(arg))"), "C17.R5"),
     ("index forgets a column", RES, M.replace_expr("Table.index", "self._data.keys() - set(indx)", "set()"), "C17.R4"),
 ]
 
